@@ -517,7 +517,8 @@ def scaled_dot_product_attention(
     # Empirical model of attention output std given mult and seq_len
     scale = (1 - dropout_p) ** 0.5 / logarithmic_interpolation(
         alpha=1 / (1 + 4 * d_head / mult**2),  # = sigmoid(log(mult**2 / (4 * d_head)))
-        lower=((log(seq_len) if is_causal else 1) / seq_len) ** 0.5,
+        # (causal: mean over rows of 1/i = H_s / s; log(s) approximates H_s, which is never below 1)
+        lower=((max(log(seq_len), 1.0) if is_causal else 1) / seq_len) ** 0.5,
         upper=1.0,
     )
     query, key, value = (scale_bwd(t, scale) for t in (query, key, value))
